@@ -226,8 +226,10 @@ Fixpoint seal_stream (A : aead) (key : bytes) (ctr : N) (ps : list bytes) : byte
      (Precondition kept by the harness: OCancel only while a request is in flight.)
    * pause_writing / resume_writing are asyncio.Protocol's no-ops: a request issued
      while the transport is paused is written at once (the transport buffers it).
-   * after ERaise (counter exhausted) the real counter is stuck at 2^64; the model keeps
-     the old state and the harness ends the session there. *)
+   * a request that would need a counter >= 2^64 raises struct.error out of the sealing
+     loop: nothing is written, the session is NOT closed, and c2a_counter is left at 2^64
+     (the frames before the failing one consumed their counters), so every later
+     non-empty request raises as well. *)
 Inductive sop : Type :=
 | OSend (p : bytes)
 | ORecv (d : bytes)
@@ -259,7 +261,7 @@ Section Session.
             | Dead => (mkSess Dead (snd r), ERefused)
             | Live b c => (mkSess (Live b c) (snd r), EWrote (fst r))
             end
-        | _ => (s, ERaise)
+        | _ => (mkSess (s_rx s) (N.max (s_tx s) ctr_limit), ERaise)
         end
     | ORecv d => let (r, o) := feed T opn (s_rx s) d in (mkSess r (s_tx s), EDeliv o)
     | OCancel => (mkSess Dead (s_tx s), EClosed)
